@@ -589,8 +589,8 @@ func deriveTripCount(loop *Loop) {
 			// Determine if Dead (TripCount 0) or Divergent (Unknown)
 			isDead := false
 			if isUpCounting {
-				// Condition: i < limit. Loop runs if Start < Limit.
-				if startC.Cmp(limitC) >= 0 {
+				// Condition: i < limit. Loop runs if Start < Limit (i <= limit: Start <= Limit).
+				if c := startC.Cmp(limitC); c > 0 || (c == 0 && !isInclusive) {
 					// Condition is false immediately.
 					isDead = true
 				} else if stepC.Sign() <= 0 {
@@ -599,8 +599,8 @@ func deriveTripCount(loop *Loop) {
 					return
 				}
 			} else {
-				// Condition: i > limit. Loop runs if Start > Limit.
-				if startC.Cmp(limitC) <= 0 {
+				// Condition: i > limit. Loop runs if Start > Limit (i >= limit: Start >= Limit).
+				if c := startC.Cmp(limitC); c < 0 || (c == 0 && !isInclusive) {
 					isDead = true
 				} else if stepC.Sign() >= 0 {
 					// Start > Limit, but step is positive. Diverges.
